@@ -254,6 +254,7 @@ def oracle(cases, impl, order):
         ph = None            # latest physical state of the implementation
         before_bg = None     # observations taken before a background step
         pending = None       # the write whose X has not been seen yet
+        cleared = {}         # (type, key) -> (ts, generation) of a CLEAR that was the latest write on the key
         bg = None
         obs_run = {}
 
@@ -274,6 +275,7 @@ def oracle(cases, impl, order):
             if kind == "NEW":
                 policy, now0 = c[1], int(c[2])
                 ph = Phys("", now0)
+                cleared = {}
                 bump("seq " + policy)
                 continue
             now_ns = (now0 + 300) * 10**9
@@ -282,7 +284,13 @@ def oracle(cases, impl, order):
                 bump("W " + name)
                 if ts == 0:
                     bump("W ts=0 (escape: outside the property's hypothesis)")
-                pending = dict(cid=cid, ts=ts, name=name, args=args, reply=out, before=ph, hexargs=c[4:])
+                pending = dict(cid=cid, ts=ts, name=name, args=args, reply=out, before=ph, hexargs=c[4:], cleared=dict(cleared),
+                               multi=pending is not None)     # multi: several writes since the last physical dump
+                if name in TYPE_OF and TYPE_OF[name] != "k" and args:
+                    tk = (TYPE_OF[name], hx(args[0]))
+                    cleared.pop(tk, None)
+                    if name.endswith("clear") and ph.header(*tk)[0]:
+                        cleared[tk] = (ts, ph.header(*tk)[2])
             elif kind == "X":
                 nph = Phys(out, now0)
                 if nph.bad:
@@ -387,6 +395,29 @@ def check_write(w, after, policy, now0, fail, bump):
         keys = [hx(args[0])]
         t = TYPE_OF[name]
     if policy != "compact":
+        # local deletion: the time index is what the deleter acts on.  An index entry appears only for the key and the second
+        # that THIS command asked for, and only when the command was accepted (C10_local_index_provenance)
+        req = None
+        try:
+            if name == "setex" or (name.endswith("expire") and name in TYPE_OF):
+                req = dec(args[1])
+            elif name == "set" and len(args) > 2:
+                o = set_opts(args[2:])
+                req = o["ex"] if o and o["ex"] else None
+            elif name == "setifeq" and len(args) > 4:
+                req = dec(args[4])
+        except ValueError:
+            req = None
+        for (wh, tt, kk) in sorted(after.tidx - before.tidx if not w.get("multi") else ()):
+            ok = req is not None and reply not in (":0", "-err") and (tt, kk) == (t, keys[0])
+            if ok and abs(req) < 10**9:
+                want = ts // 10**9 + req
+                ok = wh == (want if want > 0 else 1)
+            bump("local index entry written")
+            if not ok:
+                fail("early", cid, "an expiry index entry (second %d, %s %s) appeared that this command did not ask for or that belongs to a "
+                     "refused / failed command (reply %s): the background deletion will remove a key at a time it was never given"
+                     % (wh - now0, tt, kk, reply), None, cmd=name, args=w["hexargs"])
         return
     if ts <= 0:
         return   # the ts = 0 escape: hypothesis ts > 0 of the property
@@ -432,7 +463,10 @@ def check_write(w, after, policy, now0, fail, bump):
                          cmd=name, args=w["hexargs"], ts=ts - now0 * 10**9, expire_at=exp - now0)
                 # the rewritten key carries no expiry of its predecessor (SETEX sets its own)
                 if name not in ("setex", "set", "setifeq") and st2 and exp2 != 0:
-                    fail("ttl", cid, "a key re-created over an expired one inherited an expiry", cmd=name, args=w["hexargs"])
+                    # HINCRBY / HSET .. of a field that is (physically) stored under the renewed generation number: "not a new
+                    # field", the meta with the renewed header is not rewritten - the open generation-collision finding
+                    sg = SIG_VERSION if (t != "k" and ts != 0 and (t, k, ts) in before.el) else None
+                    fail("ttl", cid, "a key re-created over an expired one inherited an expiry", sg, cmd=name, args=w["hexargs"])
             else:
                 # nothing written: the stored (dead) entry is untouched
                 if (st2, exp2, ver2) != (stored, exp, ver) and not (name == "delifeq" and not st2):
@@ -446,6 +480,10 @@ def check_write(w, after, policy, now0, fail, bump):
                 got = after.content(t, k)
                 if got != wc:
                     sg = SIG_VERSION if (ts != 0 and (t, k, ts) in before.el) else None
+                    if w.get("cleared", {}).get((t, k)) == (ts, ts):
+                        # the previous write on this key was a CLEAR with this very timestamp of the generation numbered by this
+                        # timestamp: that CLEAR deletes the elements physically (1dcd66e) - not the open finding
+                        sg = None
                     fail("resurrect", cid, "a re-created collection shows members it was not given: %s want %s" % (got, wc), sg,
                          cmd=name, args=w["hexargs"], ts=ts - now0 * 10**9)
             continue
